@@ -688,6 +688,14 @@ func (oc *objectCache) processNewSet(info *types.Info, pkgPath string, call *ast
 	var errs []error
 	pset.providerMap, pset.srcMap, errs = buildProviderMap(oc.fset, oc.hasher, pset)
 	if len(errs) > 0 {
+		// An item of this set may be a variable of a dependency (say,
+		// var B = wire.Bind(...)); a problem with it in this set is reported
+		// at this set, not inside the dependency.
+		if setPos := oc.fset.Position(call.Pos()); oc.rootFiles[setPos.Filename] {
+			errs = mapErrors(errs, func(err error) error {
+				return oc.notePositionAtUse(setPos, err)
+			})
+		}
 		return nil, errs
 	}
 	if errs := verifyAcyclic(pset.providerMap, oc.hasher); len(errs) > 0 {
